@@ -4320,6 +4320,7 @@ class Session(_SessionClassMethods, EventTarget):
                 "Instance '%s' is not persisted" % state_str(state)
             )
 
+        was_deleted = state._deleted
         if state._deleted:
             if revert_deletion:
                 if not state._attached:
@@ -4349,7 +4350,7 @@ class Session(_SessionClassMethods, EventTarget):
 
         if to_attach:
             self._after_attach(state, obj)
-        elif revert_deletion:
+        elif revert_deletion and was_deleted:
             self.dispatch.deleted_to_persistent(self, state)
 
     def _save_or_update_impl(self, state: InstanceState[Any]) -> None:
